@@ -256,3 +256,76 @@ fn c13_transparent_merge() {
     kani::cover!(!same);
     core::mem::forget((ab, ba));
 }
+
+// ---------------------------------------------------------------------------------------------
+// Transparent bundle merge, list-length rule: the combined bundle has max(n_a, n_b) outputs — the
+// common prefix merged, the longer side's tail moved over exactly once — and the merge is refused
+// when it would add outputs to a copy whose outputs are not modifiable.
+// ---------------------------------------------------------------------------------------------
+/// `merge_map` restricted to two empty maps (all maps are empty in these harnesses, which the stub
+/// asserts): its loop over the right-hand map does not execute and it returns true.
+fn merge_map_both_empty<K: Ord, V: PartialEq>(lhs: &mut BTreeMap<K, V>, rhs: BTreeMap<K, V>) -> bool {
+    assert!(lhs.is_empty() && rhs.is_empty());
+    core::mem::forget(rhs);
+    true
+}
+
+macro_rules! transparent_len_rule {
+    ($name:ident, $na:expr, $nb:expr) => {
+        #[kani::proof]
+        #[kani::stub(pczt::roles::combiner::merge_map, merge_map_both_empty)]
+        #[kani::unwind(6)]
+        fn $name() {
+            const NA: usize = $na;
+            const NB: usize = $nb;
+            let (fa, fb): (u8, u8) = (kani::any(), kani::any());
+            let ga = hk::global(5, 0x26A7270A, 0xC8E71055, None, 0, 133, fa, BTreeMap::new());
+            let gb = hk::global(5, 0x26A7270A, 0xC8E71055, None, 0, 133, fb, BTreeMap::new());
+            // output i carries value v[i] on both sides, except that side b's copy of the common
+            // prefix may differ in its first value
+            let v: [u64; 3] = [kani::any(), kani::any(), kani::any()];
+            let vb0: u64 = kani::any();
+            let mut oa = Vec::new();
+            let mut i = 0;
+            while i < NA {
+                oa.push(hk::transparent_output(v[i], vec![0x52], None, None));
+                i += 1;
+            }
+            let mut ob = Vec::new();
+            let mut i = 0;
+            while i < NB {
+                ob.push(hk::transparent_output(if i == 0 { vb0 } else { v[i] }, vec![0x52], None, None));
+                i += 1;
+            }
+            let r = hk::merge_transparent(hk::transparent_bundle(Vec::new(), oa), hk::transparent_bundle(Vec::new(), ob), &ga, &gb);
+            let a_mod = fa & 0b10 != 0;
+            let b_mod = fb & 0b10 != 0;
+            let adds_to_a = NA < NB;
+            let adds_to_b = NA > NB;
+            let prefix_same = NA == 0 || NB == 0 || vb0 == v[0];
+            let want = !(adds_to_a && !a_mod) && !(adds_to_b && !b_mod) && prefix_same;
+            assert!(r.is_some() == want);
+            if let Some(b) = &r {
+                let n = if NA > NB { NA } else { NB };
+                assert!(b.inputs().len() == 0);
+                assert!(b.outputs().len() == n);
+                let mut i = 0;
+                while i < n {
+                    let expect = if i == 0 && NA == 0 { vb0 } else { v[i] };
+                    assert!(*b.outputs()[i].value() == expect);
+                    i += 1;
+                }
+                kani::cover!(true);
+            } else {
+                kani::cover!(true);
+            }
+            core::mem::forget(r);
+        }
+    };
+}
+//@ {"p":"C13","tier":"quick","clause":"transparent::Bundle::merge, output lists of different lengths (receiving copy shorter): Some iff the receiving copy's outputs are modifiable and the common prefix agrees; the result has exactly max(n_a, n_b) outputs, the prefix kept and the other copy's tail moved over once, in order","bounds":"0 inputs; 1 output vs 2 outputs; output values and both tx_modifiable bytes symbolic; scripts concrete, maps empty","assume":"stub: roles::combiner::merge_map on two empty maps = true (asserted empty)","stub":true,"replay":"model","covers":2,"t":1200,"unwindset":{"collections::btree.*":2}}
+transparent_len_rule!(c13_transparent_outputs_1_2, 1, 2);
+//@ {"p":"C13","tier":"quick","clause":"same, receiving copy longer: Some iff the OTHER copy's outputs are modifiable and the prefix agrees; nothing is moved","bounds":"0 inputs; 2 outputs vs 1 output","assume":"stub: merge_map on two empty maps","stub":true,"replay":"model","covers":2,"t":1200,"unwindset":{"collections::btree.*":2}}
+transparent_len_rule!(c13_transparent_outputs_2_1, 2, 1);
+//@ {"p":"C13","tier":"thorough","clause":"same, empty receiving copy","bounds":"0 inputs; 0 outputs vs 2 outputs","assume":"stub: merge_map on two empty maps","stub":true,"replay":"model","covers":2,"t":1200,"unwindset":{"collections::btree.*":2}}
+transparent_len_rule!(c13_transparent_outputs_0_2, 0, 2);
